@@ -14,6 +14,8 @@ for d in sorted(glob.glob(os.path.join(HERE, "seeded", "C*-*"))):
         continue
     meta = json.load(open(os.path.join(d, "meta.json")))
     prop = meta["property"]
+    if meta.get("retired"):
+        continue
     a = subprocess.run(["git", "-C", "/repo", "apply", os.path.join(d, "patch.diff")], capture_output=True, text=True)
     if a.returncode:
         rows.append((name, prop, "PATCH DOES NOT APPLY", ""))
@@ -33,6 +35,9 @@ for d in sorted(glob.glob(os.path.join(HERE, "seeded", "C*-*"))):
 allrows = []
 for d in sorted(glob.glob(os.path.join(HERE, "seeded", "C*-*"))):
     meta = json.load(open(os.path.join(d, "meta.json")))
+    if meta.get("retired"):
+        allrows.append((os.path.basename(d), meta["property"], "retired", meta["retired"][:160]))
+        continue
     for chk, res in (meta.get("caught_by") or {"(not run)": {"exit": None, "violation_kinds": [], "repo_head": "-"}}).items():
         verdict = {0: "MISSED", 1: "caught", 2: "inconclusive", None: "not run"}.get(res["exit"], str(res["exit"]))
         allrows.append((os.path.basename(d), meta["property"], f"{chk}: {verdict} (/repo {res['repo_head']})", ", ".join(res["violation_kinds"])[:160]))
